@@ -241,6 +241,7 @@ func TestC11(t *testing.T) {
 						sc := &cScript{Backoff: cBackoff{InitialInterval: int64(time.Millisecond), Multiplier: 1, Jitter: -1, MaxRetries: mr}, Body: "nil"}
 						if mode == 2 {
 							a = cAttempt{Kind: "stream", Stream: base, End: "eof", CancelAtOff: cut, ByteReads: bytewise}
+							sc.Deadline = (cut+mr)%2 == 0
 						}
 						// the same ending is repeated so that, with retries, the last attempt decides
 						sc.Attempts = []cAttempt{a}
@@ -282,7 +283,9 @@ func TestC11(t *testing.T) {
 		if rng.IntN(25) == 0 {
 			sc.CancelBefore = true
 		}
-		if rng.IntN(8) == 0 {
+		if rng.IntN(3) == 0 {
+			sc.Deadline = true
+		} else if rng.IntN(8) == 0 {
 			sc.CancelInWait = map[int]bool{rng.IntN(na): true}
 		}
 		cRun(t, r, fw.Key("B", i), sc, "C11")
